@@ -435,6 +435,19 @@ def run_check(mod, tier, seed, replay=None):
             if ok_before and canon(before) != canon(after):
                 failures.append({"case": {"op": "history_pair", "first": c1, "then": c2}, "impl": {"before": before, "after": after},
                                  "expected": exp1, "key": "history:result-changed-after-a-later-call"})
+            # a caller may modify a RESULT in place; an identical later call must still give the original answer
+            # (no cache handing out the same object twice).  Opt-in: mutate_live(obj) -> True if it modified obj.
+            if ok_before and hasattr(mod, "mutate_live"):
+                try:
+                    if mod.mutate_live(obj1, c1):
+                        obj3, canon3 = mod.impl_live(c1)
+                        again = canon3(obj3)
+                        stats["evaluations"] += 1
+                        if canon(again) != canon(before):
+                            failures.append({"case": {"op": "history_mutate", "first": c1}, "impl": {"first_call": before, "same_call_after_result_was_modified": again},
+                                             "expected": exp1, "key": "history:same-call-differs-after-its-earlier-result-was-modified"})
+                except Exception:
+                    pass
     if model_vs_spec:
         raise Machinery("Lean spec and Python oracle disagree (machinery error): " + canon(model_vs_spec[0])[:1500])
 
